@@ -15,6 +15,26 @@ CHECKS = {
    text="TLC writes the expected outcome (deliver in full / fail after at most limit+1 bytes with Close 1009) for every row of the limit grammar including limit changes between messages, huge declared lengths and decompression bombs; the harness replays them in both roles with three read-buffer sizes and measures TotalAlloc sequentially for the memory clause.",
    note="Trusted: TLC, Go compress/flate. The memory bound is a measured quantity with fixed slack (512 KiB), not derived by TLC.",
    design="6/C08"),
+ "C16": dict(
+   technique="TLA+ model of the concurrent endpoint (spec/WSConn.tla) checked by TLC for NothingAfterClose over all interleavings; hook traces of seeded concurrent executions validated by TLC against TraceConn.tla and the frames a raw peer records until EOF against TraceWire.tla (WSFrame!WireStep)",
+   text="TLC explores every interleaving of a streaming writer, pinger, reader, closer, timeoutLoop and a peer that may echo early/late/never (quick 0.4M, thorough 24M distinct states) and must also catch the two pre-fix deviations; 300 (quick) / 4000 (thorough) seeded concurrent executions of the real Conn are trace-validated: the library's own emission order (WfHeader hook under writeFrameMu) and the wire as seen by an independent peer must both satisfy 'no data frame and no second Close after a Close frame'.",
+   note="Schedules on the real code are sampled, not enumerated; hooks log under the lock that protects the emission (rule R1). Trusted: TLC, raw peer parser (its header bytes are re-decoded by TLC).",
+   design="6/C16"),
+ "C05": dict(
+   technique="TLA+ model WSConn (FrameAtomic, NoMsgInterleave, MutexOK) checked by TLC; TLC trace validation of hook events (lock discipline R2/R3, frame atomicity, message ownership) and of the peer-observed wire; Go race detector as auxiliary oracle for the data-race clause",
+   text="Model: all interleavings within the constants. Code: seeded concurrent executions (1-3 writers with Write/Writer, pingers, reader, closer) over a perturbing transport; every lock/unlock/emit event is validated by TraceConn.tla, every frame by TraceWire.tla, every message the peer reassembles is matched to exactly one written message in per-writer order; the same executions run again under -race with the sink nil.",
+   note="The memory-model part ('no data race') is decided by the Go race detector, not by TLC. Schedules are sampled.",
+   design="6/C05"),
+ "C15": dict(
+   technique="TLA+ model WSConn (PingNilOnlyAfterPong, PongOnlyForPing) checked by TLC; trace validation of PingReg/PongRcvd/PingRes hook events (TraceConn.tla) and of Pong echo order and payload on the wire (TraceWire.tla)",
+   text="TLC checks that Ping returns nil only after its own Pong under every interleaving incl. foreign and unsolicited pongs; on the real code every Ping result is validated against the recorded pong notifications and every Pong frame the peer receives must echo the next unanswered Ping payload in order (pings placed before, between and inside fragmented messages).",
+   note="Schedules are sampled. Trusted: TLC, raw peer.",
+   design="6/C15"),
+ "C20": dict(
+   technique="TLA+ model WSConn (CloseReturnedClean) checked by TLC; trace validation of goroutine start/exit hooks against Close/CloseNow return events (TraceConn.tla)",
+   text="TLC checks that Close returns only after the timeoutLoop has exited under every interleaving; on the real code TLStart/TLExit/CrStart/CrExit and CloseRet/CloseNowRet events of seeded executions (all closer kinds, CloseRead, abandoned writers) are validated: no library goroutine started before the call is alive when it returns.",
+   note="Exit hooks are deferred so that they run before the done channels are closed (no false alarm from logging order). Schedules are sampled.",
+   design="6/C20"),
  "C03": dict(
    technique="TLA+ reference decoder (spec/WSRecv.tla) model-checked by TLC; TLC-generated behaviours (all frame streams up to a length bound) replayed into the real Conn and compared with the specification's predicted reaction",
    text="TLC checks the reference decoder automaton and enumerates every frame stream of <=3 (quick) / <=4 (thorough) letters over a 43-letter alphabet of valid and single-violation frames; each is serialised by an independent raw peer and fed to a real Conn in both roles, compression modes and transport chunkings; messages, Pongs, Close echo, failing read and absence of panics are compared with React/Run. Exhaustive within the alphabet and length bound.",
